@@ -149,7 +149,9 @@ class GroupAdditivityScheme(Scheme):
         groups = self._AssignGroup(mol)
         descriptors = self._AssignDescriptor(mol, clean_mol)
         all_descriptors = groups.copy()
-        all_descriptors.update(descriptors)
+        for name in descriptors:
+            # add: a remapped group and a descriptor may share a name
+            all_descriptors[name] += descriptors[name]
         if os.environ.get('PGRADD_VERIF') == '1':
             # Verification hook (off by default): keep a reference to the
             # annotated molecule of this decomposition so that per-atom
